@@ -98,6 +98,13 @@ class _TEval:
                 self.consts.add(e.attr)
                 return A.atom('K:' + e.attr)
             raise AnalysisError('%s reads self.%s' % (self.m.name, e.attr))
+        if isinstance(e, ast.IfExp):
+            # `a if self.with_altitude else b` (and its negation): the arm of this mode
+            t_ = norm_text(e.test)
+            if t_ in ('self.with_altitude', 'self.with_altitude is True'):
+                return self.ev(e.body if self.wa else e.orelse)
+            if t_ in ('not self.with_altitude', 'self.with_altitude is False'):
+                return self.ev(e.orelse if self.wa else e.body)
         if isinstance(e, ast.Attribute) and e.attr == 'T':
             return A.T(self.ev(e.value))
         if isinstance(e, ast.BinOp) and isinstance(e.op, ast.MatMult):
